@@ -1,5 +1,6 @@
 import IncanModel.Sem.Regroup
 import IncanModel.Props.C20
+import IncanModel.Sem.Comprehension
 /-
 C01 — compiled programs behave as the source says (core fragment; restructuring steps of the compiler).
 -/
@@ -305,3 +306,29 @@ theorem redeclared_method_is_own (levels : List (String × List String))
 
 end Incan.Derive
 
+/-! ### List comprehensions: the emitted iterator chain means what the source says -/
+namespace Incan.Comp
+
+/-- The emitted iterator chain computes the comprehension's meaning, for every list, condition and element. -/
+theorem emitted_eq_meaning {α β : Type} (xs : List α) (cond : α → Bool) (elem : α → β) :
+    emitted xs cond elem = meaning xs cond elem := by
+  unfold emitted
+  induction xs with
+  | nil => rfl
+  | cons x rest ih =>
+    simp only [meaning, List.filter_cons]
+    cases cond x <;> simp [ih]
+
+/-- Every collected value comes from an element that passed the condition (nothing is filtered on the mapped value). -/
+theorem meaning_mem {α β : Type} (xs : List α) (cond : α → Bool) (elem : α → β) (y : β) :
+    y ∈ meaning xs cond elem ↔ ∃ x ∈ xs, cond x = true ∧ elem x = y := by
+  rw [← emitted_eq_meaning]
+  unfold emitted
+  simp [List.mem_map, List.mem_filter, and_assoc]
+
+/-- `[x + 1 for x in range(6) if x % 2 == 0]`: map-then-filter answers `[2, 4, 6]`… wrong: it keeps the even *results*. -/
+theorem map_then_filter_differs :
+    meaning [0, 1, 2, 3, 4, 5] (fun x => x % 2 == 0) (fun x => x + 1) = [1, 3, 5] ∧
+    mapThenFilter [0, 1, 2, 3, 4, 5] (fun x => x % 2 == 0) (fun x => x + 1) = [2, 4, 6] := by decide
+
+end Incan.Comp
